@@ -300,6 +300,20 @@ def c17_case(args):
                         {**d, "expected": expected_suspensions(o, susp, fl), "observed": o.nsusp}))
         if len(_LOOP_CALLS) != before:
             out.append((f"C17/{tool}/touches-asyncio-loop", {**d, "observed": _LOOP_CALLS[before:][:3]}))
+    # a cancellation that is asyncio's own exception class must still only travel through user awaitables
+    import asyncio  # noqa: PLC0415
+
+    fl = combos[0]
+    base = tm.execute(case, L, flav=fl, susp=1)
+    for k in range(1, min(base.nsusp, 4) + 1):
+        before = len(_LOOP_CALLS)
+        o = tm.execute(case, L, flav=fl, susp=1, cancel_at=k, cancel_cls=asyncio.CancelledError)
+        runs += 1
+        if not o.acct.ok() or len(_LOOP_CALLS) != before:
+            out.append((f"C17/{tool}/cancellation-handled-through-foreign-awaitable",
+                        {"engine": "toolmachine", "cfg": case["cfg"], "nnext": case["nnext"], "cancel_at": k,
+                         "observed": {**o.acct.describe(), "loop_calls": _LOOP_CALLS[before:][:3]}}))
+            break
     # all-synchronous arguments: the operation completes without suspending at all
     fl = {"src": ["iter"] * n, "call": "def", "outer": "iter"}
     if tool not in ("any_iter", "await_each", "apply") or not (case["cfg"]["par"].get("aw") or case["cfg"]["par"].get("outer") or tool in ("await_each", "apply")):
@@ -363,7 +377,7 @@ def check_c17(prop, tier, seed):
     _patch_asyncio()
     cases, stats = generate(tier, ITER_TOOLS + AGG_TOOLS + ["any_iter", "await_each", "apply", "sync"], faults=False, prefixes=True)
     rnd = random.Random(seed)
-    cap = 4000 if tier == "quick" else 60000
+    cap = 1500 if tier == "quick" else 60000
     chosen = cases if len(cases) <= cap else rnd.sample(cases, cap)
     runs = 0
     with _pool() as pool:
@@ -371,6 +385,22 @@ def check_c17(prop, tier, seed):
             runs += n
             for sig, d in out:
                 v.violation(sig, d)
+    # long all-synchronous inputs: no library-owned checkpoint may appear however long the input
+    big = list(range(10000))
+    L_ = tm.load_lib()
+    for name, mk in (("list", lambda: L_.list(big)), ("sum", lambda: L_.sum(big)), ("map", lambda: L_.list(L_.map(abs, big))),
+                     ("zip", lambda: L_.list(L_.zip(big, big))), ("filter", lambda: L_.list(L_.filter(None, big))),
+                     ("islice", lambda: L_.list(L_.islice(big, 5000, None))), ("sorted", lambda: L_.sorted(big)),
+                     ("chain", lambda: L_.list(L_.chain(big, big))), ("reduce", lambda: L_.reduce(max, big)),
+                     ("tee", lambda: L_.list(L_.tee(big, n=1)[0])), ("enumerate", lambda: L_.list(L_.enumerate(big))),
+                     ("any_iter", lambda: L_.list(L_.any_iter(big)))):
+        acct = Accounting()
+        t = Task(mk(), acct)
+        r = t.step()
+        runs += 1
+        if r[0] != "done":
+            v.violation(f"C17/{name}/suspends-with-only-synchronous-arguments",
+                        {"engine": "scenario", "cfg": {"items": len(big)}, "observed": repr(r)[:200]})
     # importing and using the library needs no running loop and creates none
     code = ("import asyncio, asyncio.events as ev, sys; sys.path.insert(0, %r); import asyncstdlib as a\n"
             "assert ev._get_running_loop() is None\n"
@@ -391,8 +421,11 @@ def check_c17(prop, tier, seed):
     def only_foreign(sig, d):
         return ("C17/" + sig.split("/", 1)[1]) if ("foreign-suspension" in sig or "suspends-without" in sig) else None
 
-    for name, eng, p_ in (("tee", eng_tee, "C09"), ("lruconc", eng_lruconc, "C11"), ("cprop", eng_cprop, "C12"), ("decorator", eng_decor, "C15"),
-                          ("exitstack", eng_exitstack, "C14"), ("groupby", eng_groupby, "C16"), ("handles", eng_handles, "C08")):
+    engines = [("tee", eng_tee, "C09"), ("lruconc", eng_lruconc, "C11"), ("cprop", eng_cprop, "C12"), ("decorator", eng_decor, "C15"),
+               ("groupby", eng_groupby, "C16")]
+    if tier == "thorough":   # these two have no suspension points of their own besides the tools they call
+        engines += [("exitstack", eng_exitstack, "C14"), ("handles", eng_handles, "C08")]
+    for name, eng, p_ in engines:
         sv = SubVerdict(v, only_foreign, name)
         eng.check(p_, "mini" if name in ("tee", "lruconc", "cprop") else "quick", seed, into=sv)
         sub[name] = {k: sv.coverage_out.get(k) for k in ("states", "transitions", "traces_validated_against_impl") if sv.coverage_out}
@@ -413,6 +446,8 @@ def check_c17(prop, tier, seed):
 
 
 def c18_case(case):
+    import asyncio  # noqa: PLC0415
+
     L = tm.load_lib()
     out, runs = [], 0
     tool = case["cfg"]["tool"]
@@ -421,8 +456,14 @@ def c18_case(case):
         base = tm.execute(case, L, flav=fl, susp=1)
         n = base.nsusp
         for k in range(1, n + 1):
-            o = tm.execute(case, L, flav=fl, susp=1, cancel_at=k)
+            # what gets thrown in: the harness' own BaseException, asyncio's, or KeyboardInterrupt
+            ccls = (Cancelled, asyncio.CancelledError, KeyboardInterrupt)[(k + len(case["log"])) % 3]
+            o = tm.execute(case, L, flav=fl, susp=1, cancel_at=k, cancel_cls=ccls)
             runs += 1
+            if not o.acct.ok():
+                out.append((f"C18/{tool}/cancellation-handled-through-foreign-awaitable",
+                            {"engine": "toolmachine", "cfg": case["cfg"], "nnext": case["nnext"], "cancel_class": ccls.__name__, "observed": o.acct.describe()}))
+                continue
             d = {"engine": "toolmachine", "cfg": case["cfg"], "nnext": case["nnext"], "flavour": src, "cancel_at_suspension": k, "of": n}
             if o.ending != "cancel" or o.exc_same is not True:
                 how = "swallowed" if o.exc_type is None else "replaced" if o.ending == "cancel" else "lost"
@@ -503,6 +544,57 @@ def exitstack_cancel(L):
     return out, runs
 
 
+def groupby_cancel(L):
+    """groupby (or one of its groups) is cancelled at every suspension of source or key function;
+    the owner then closes the groupby: the source must be closed, the exception unchanged."""
+    from .instruments import ClsSource, make_callable  # noqa: PLC0415
+
+    out, runs = [], 0
+    for data in ([1, 1, 2], [1, 2, 2, 1], [1]):
+        for keyfl in ("none", "asyncdef"):
+            for script in (["gb"], ["gb", "grp"], ["gb", "gb"], ["gb", "grp", "gb"]):
+                for k in range(1, 9):
+                    rec = Recorder()
+                    rec.susp = 1
+                    src = ClsSource(rec, 1, [Item(1, p + 1, kk) for p, kk in enumerate(data)])
+                    key = None if keyfl == "none" else make_callable("asyncdef", rec, "key")
+                    gb = L.groupby(src, key)
+                    cancel = Cancelled("cancel")
+                    grp, n, hit, res = None, 0, False, None
+                    for op in script:
+                        if op == "grp" and grp is None:
+                            break
+                        t = Task(gb.__anext__() if op == "gb" else grp.__anext__(), rec.acct)
+                        r = t.step()
+                        while r[0] == "token":
+                            n += 1
+                            if n == k:
+                                hit = True
+                                r = t.throw(cancel)
+                            else:
+                                r = t.step()
+                        if hit:
+                            res = r
+                            break
+                        if r[0] == "done" and op == "gb":
+                            grp = r[1][1]
+                        elif r[0] == "raised":
+                            break
+                    if not hit:
+                        continue
+                    runs += 1
+                    d = {"engine": "scenario", "cfg": {"data": data, "key": keyfl, "script": script, "cancel_at": k}}
+                    if not (res[0] == "raised" and res[1] is cancel):
+                        out.append(("C18/groupby/cancellation-not-propagated", {**d, "observed": repr(res)[:200]}))
+                        continue
+                    rc = Task(gb.aclose(), rec.acct).run()
+                    if rc[0] == "raised":
+                        out.append(("C18/groupby/close-after-cancel-raises", {**d, "observed": repr(rc[1])}))
+                    elif not src.released:
+                        out.append(("C18/groupby/unreleased-source-after-cancel", {**d, "expected": "closed|exhausted", "observed": src.state}))
+    return out, runs
+
+
 def scoped_cancel(L):
     """A tool suspended inside an `async with scoped_iter(...)` block is cancelled."""
     from .instruments import ClsSource  # noqa: PLC0415
@@ -552,7 +644,7 @@ def check_c18(prop, tier, seed):
             for sig, d in out:
                 v.violation(sig, d)
     L = tm.load_lib()
-    for fn in (exitstack_cancel, scoped_cancel):
+    for fn in (exitstack_cancel, scoped_cancel, groupby_cancel):
         out, n = fn(L)
         runs += n
         for sig, d in out:
@@ -594,6 +686,7 @@ STREAM_TOOLS = {
     "all": ({"z": 0}, 0), "any": ({"z": 0}, 0), "sum": ({"startv": "zero"}, 0), "min": ({"key": True, "dflt": "no"}, 0), "max": ({"key": False, "dflt": "no"}, 0),
     "reduce": ({"init": True}, 0), "nlargest": ({"key": True, "n": 5}, 5), "nsmallest": ({"key": False, "n": 5}, 5),
 }
+BIG_N = 1000   # nlargest/nsmallest with a large n on a stream twice as long: the window is n, not the stream
 NSRC = {"zip": 2, "map": 2, "compress": 2, "zip_longest": 2, "merge": 3, "chain": 2}
 
 
@@ -634,7 +727,11 @@ class ForgetfulSource:
 def c20_run(args):
     tool, n, every = args
     L = tm.load_lib()
-    par, win = STREAM_TOOLS[tool]
+    if tool.endswith("#big"):
+        par, win = ({"key": tool.startswith("nlargest"), "n": BIG_N}, BIG_N)
+        tool = tool.split("#")[0]
+    else:
+        par, win = STREAM_TOOLS[tool]
     nsrc = NSRC.get(tool, 1)
     truth = {"filter": 1, "filterfalse": 0, "dropwhile": 0, "takewhile": 1, "all": 1, "any": 0, "compress": 1}.get(tool, 1)
     varied = tool in ("merge", "min", "max", "nlargest", "nsmallest")
@@ -684,16 +781,53 @@ def c20_run(args):
     return {"cfg": {"tool": tool, "param": win, "nsrc": nsrc, "n": n}, "ev": census}
 
 
+def groupby_retention(args):
+    """Many short groups, each consumed and dropped: groupby may hold the look-ahead item only."""
+    n, keyfl = args
+    L = tm.load_lib()
+    refs, census, passed = [], [], [0]
+
+    def hook(x):
+        refs.append(weakref.ref(x))
+        passed[0] += 1
+
+    items = [WItem(1, p + 1, (p // 2) % 2 + 1) for p in range(n)]
+    src = ForgetfulSource(items, hook)
+    del items
+    gb = L.groupby(src) if keyfl == "none" else L.groupby(src, lambda x: x.k)
+    acct = Accounting()
+    while True:
+        r = Task(gb.__anext__(), acct).run()
+        if r[0] != "done":
+            break
+        grp = r[1][1]
+        del r
+        while True:
+            r2 = Task(grp.__anext__(), acct).run()
+            stop = r2[0] != "done"
+            del r2
+            if stop:
+                break
+        del grp
+        gc.collect()
+        census.append({"passed": passed[0], "alive": sum(1 for w in refs if w() is not None)})
+    return {"cfg": {"tool": "groupby", "param": 1, "nsrc": 1, "n": n}, "ev": census}
+
+
 def check_c20(prop, tier, seed):
     v = Verdict(prop, tier, seed)
     sizes = [50] if tier == "quick" else [50, 200, 1000, 2000]
     jobs = []
     for n in sizes:
         every = 1 if n <= 50 else max(1, n // 100)
-        for tool in STREAM_TOOLS:
+        for tool in [t for t in STREAM_TOOLS if "#" not in t]:
             jobs.append((tool, n, every))
+    STREAM_TOOLS["nlargest#big"] = ({"key": True, "n": BIG_N}, BIG_N)
+    STREAM_TOOLS["nsmallest#big"] = ({"key": False, "n": BIG_N}, BIG_N)
+    jobs += [("nlargest#big", 2 * BIG_N, 250), ("nsmallest#big", 2 * BIG_N, 250)]
     with _pool() as pool:
         traces = pool.map(c20_run, jobs, chunksize=1)
+        traces += pool.map(groupby_retention, [(n, kf) for n in sizes for kf in ("none", "def")], chunksize=1)
     rejected, st = validate("RetentionObs", traces)
     for idx, matched in sorted(rejected.items()):
         tr = traces[idx]
